@@ -24,7 +24,10 @@ RULE = ("every registry function x NaN injected into forecast / observation / we
         "ensemble scores (Brier, CRPS family) with cases whose members are ALL NaN beside a valid observation (and the reverse, "
         "partial members, NaN weights), and risk_matrix_score with all-zero severity columns / probability rows in the decision "
         "weights (hand-made or from weights_from_warning_scaling with two identical top severity columns) and a NaN in such a "
-        "category — expected per-case values from the Lean Specs of C13 / C06 / C12 on the exact values")
+        "category — expected per-case values from the Lean Specs of C13 / C06 / C12 on the exact values; and xr.Dataset inputs "
+        "with 2-3 data variables whose missing cases differ between the variables (every registry function that takes Datasets; "
+        "default / preserve_dims='all' / reduce_dims requests; optional shared weights): result[v] = the DataArray result of "
+        "variable v alone = that result with v's own NaN cases deleted (oracle only, with a NaN-free control run)")
 MANIFEST = dict(
     level="proof",
     text="Lean theorems for lists of any length: masking cases by NaN equals deleting them for the NaN-skipping mean, sum and "
@@ -34,7 +37,8 @@ MANIFEST = dict(
          "injection) and checked directly: result with NaN-masked cases = result with the cases physically deleted, and the "
          "pointwise output is NaN exactly where an input is NaN. Cases without any ensemble member / with a NaN in a "
          "zero-weight risk-matrix category are additionally checked against the exact Lean Spec value per case, the exact mean "
-         "over the present cases, and the run with those cases deleted.",
+         "over the present cases, and the run with those cases deleted. Dataset inputs: each data variable's result equals "
+         "the result of that variable alone (a NaN in one variable never removes a case from another variable).",
     note="Per-score kernels' NaN paths (ensemble member dropping, CDF propagation, Murphy/FIRM masks) are proved in their own "
          "property files (C06, C07/C17, C11, C12, C13) and only compared here. FSS excluded by the property text. Library "
          "reductions are modelled, not verified.",
@@ -601,6 +605,172 @@ def risk_matrix_zero_weight(ctx, ncases):
         eval_rm(ctx, c, r)
 
 
+
+# ----------------------------------------------------------------------------- Dataset inputs: one mask PER data variable
+# A Dataset is a bundle of independent data variables: every variable is scored on its own cases, so a NaN in one
+# variable (forecast or observation) must remove that case from THAT variable only.  Statement checked on the
+# implementation: result[v] of the Dataset call = result of the DataArray call on variable v alone (all requests), and
+# = the DataArray result with v's own NaN cases physically deleted.  Control run on the same values without any NaN
+# separates a missing-value effect from a general Dataset-handling difference (tagged without_nan=True).
+DS_FUNCS = [
+    "mse", "mae", "rmse", "mse_angular", "mae_angular", "rmse_angular", "additive_bias", "mean_error",
+    "multiplicative_bias", "pbias", "quantile_score", "consistent_expectile_score", "consistent_huber_score",
+    "consistent_quantile_score", "tw_squared_error", "tw_absolute_error", "tw_quantile_score", "tw_expectile_score",
+    "tw_huber_loss", "brier_score", "brier_score_for_ensemble", "crps_for_ensemble", "crps_for_ensemble_components",
+    "crps_for_ensemble_fair", "tw_crps_for_ensemble", "tail_tw_crps_for_ensemble", "interval_tw_crps_for_ensemble",
+    "probability_of_detection", "probability_of_false_detection", "proportion_exceeding", "proportion_exceeding_single",
+    "binary_discretise_proportion_autosqueeze", "binary_discretise_proportion_scalar", "binary_discretise_proportion",
+    "risk_matrix_score",
+]       # registry functions that take xr.Dataset forecasts/observations and return one result variable per data variable
+DS_BATCH = "dataset-per-variable"
+DS_NAMES = ["temp", "wind", "rain"]
+
+
+def da_json(da):
+    return {"dims": [str(d) for d in da.dims], "coords": {str(d): np.asarray(da[d].values).tolist() for d in da.dims},
+            "values": core.canon(np.asarray(da.values, dtype=float).tolist())}
+
+
+def da_unjson(j):
+    return xr.DataArray(np.array(unfl(j["values"]), dtype=float).reshape([len(j["coords"][d]) for d in j["dims"]]),
+                        dims=[R.fresh(d) for d in j["dims"]], coords={d: list(j["coords"][d]) for d in j["dims"]})
+
+
+def gen_ds(rng, e):
+    """2-3 data variables on the same case labels, each with its OWN missing cases (fcst / obs slot, disjoint or
+    overlapping positions, one variable usually complete); optional shared DataArray weights (sometimes with a NaN)"""
+    n = rng.choice([2, 3, 4, 5])
+    nv = rng.choice([2, 2, 3])
+    with_w = e.weights and rng.random() < 0.35
+    base = case_1d(rng, e, n, with_weights=with_w)
+    w = base.weights
+    if w is not None and rng.random() < 0.3:
+        w = w.copy(deep=True)
+        w[{K: rng.randrange(n)}] = np.nan
+    clean, arrays, positions, slots = {}, {}, {}, {}
+    for vi in range(nv):
+        v = DS_NAMES[vi]
+        case = base if vi == 0 else case_1d(rng, e, n, with_weights=False)
+        if rng.random() < 0.25 and vi > 0:
+            case = base                                 # identical values in two variables: only the NaN differ
+        clean[v] = {k: a for k, a in case.arrays.items()}
+        kind = rng.choice(["none", "one", "one", "some", "all"]) if n > 1 else "one"
+        pos = {"none": [], "one": [rng.randrange(n)], "some": sorted(rng.sample(range(n), rng.randint(1, n - 1))),
+               "all": list(range(n))}[kind]
+        slot = rng.choice(["fcst"] + ([] if e.no_obs else ["obs", "obs"]))
+        a2, _, _ = inject(rng, e, case, slot, pos)
+        clean[v] = case.arrays
+        arrays[v], positions[v], slots[v] = a2, pos, slot
+    if all(not p for p in positions.values()):          # the class under test: at least one variable has a missing case
+        v = rng.choice(list(positions))
+        positions[v] = [rng.randrange(n)]
+        arrays[v], _, _ = inject(rng, e, R.Case(arrays=clean[v], weights=None, sizes=base.sizes, fcst_dims=base.fcst_dims,
+                                                 obs_dims=base.obs_dims, weights_dims=[], specific=base.specific),
+                                 slots[v], positions[v])
+    req = rng.choice([{}, {}, {"preserve_dims": "all"}, {"reduce_dims": [R.fresh(K)]}])
+    return {"function": e.name, "n": n, "request": req, "slots": slots, "positions": positions,
+            "vars": {v: {k: da_json(a) for k, a in arrays[v].items()} for v in arrays},
+            "clean": {v: {k: da_json(a) for k, a in clean[v].items()} for v in clean},
+            "weights": None if w is None else da_json(w)}
+
+
+def ds_case_of(e, arrs, w):
+    return R.Case(arrays=arrs, weights=w, sizes={}, fcst_dims=[K], obs_dims=([] if e.no_obs else [K]),
+                  weights_dims=([K] if w is not None else []), specific=list(e.specific))
+
+
+def ds_eval(ctx, c):
+    """True iff the statement fails on c"""
+    e = R.BY_NAME[c["function"]]
+    req = dict(c["request"])
+    names = list(c["vars"])
+    arrs = {v: {k: da_unjson(j) for k, j in c["vars"][v].items()} for v in names}
+    clean = {v: {k: da_unjson(j) for k, j in c["clean"][v].items()} for v in names}
+    w = None if c["weights"] is None else da_unjson(c["weights"])
+    n = c["n"]
+    nfail = len(ctx.failures)
+    tags = {"function": e.name, "class": "dataset-variables", "nvars": len(names), "request": sorted(req)}
+
+    def bundle(per_var):
+        return {arg: xr.Dataset({v: per_var[v][arg] for v in names}) for arg, _, _ in e.inputs}
+
+    def call_ds(per_var):
+        import warnings
+        try:
+            with warnings.catch_warnings(), np.errstate(all="ignore"):
+                warnings.simplefilter("ignore")
+                r = e.call(ds_case_of(e, per_var[names[0]], w), req, arrays=bundle(per_var), weights=w)
+            if not isinstance(r, xr.Dataset):
+                return None, TypeError("result of a Dataset call is %s" % type(r).__name__)
+            return r, None
+        except Exception as ex:  # noqa: BLE001
+            return None, ex
+
+    got, ex = call_ds(arrs)
+    alone = {v: c01.safe_call(e, ds_case_of(e, arrs[v], w), req, arrays=arrs[v], weights=w) for v in names}
+    if ex is not None:
+        if all(x is None for _, x in alone.values()):
+            ctx.fail(DS_BATCH, "property", e.name, "exception:" + core.exc_class(ex), c, observed=str(ex)[:200],
+                     expected="one result per data variable (every variable alone gives a result)", tags=tags)
+        return len(ctx.failures) > nfail
+    if set(str(k) for k in got.data_vars) != set(names):
+        ctx.fail(DS_BATCH, "property", e.name, "result-variables", c, observed=sorted(str(k) for k in got.data_vars),
+                 expected=names, tags=tags)
+        return True
+    control = None
+    for v in names:
+        out, ex1 = alone[v]
+        if ex1 is not None or set(out) != {"value"}:
+            continue
+        differing = []
+        if not same_out({v: got[v]}, {v: out["value"]}, differing):
+            if control is None:
+                control = call_ds(clean)
+            cout, cex = c01.safe_call(e, ds_case_of(e, clean[v], w), req, arrays=clean[v], weights=w)
+            without_nan = (control[1] is None and cex is None and not same_out({v: control[0][v]}, {v: cout["value"]}))
+            t = dict(tags, var=v, without_nan=bool(without_nan), own_missing=c["positions"][v],
+                     other_missing=sorted({p for u in names if u != v for p in c["positions"][u]}))
+            if without_nan and e.name.startswith("tw_"):
+                t["defect"] = "F-C02-DS-TW"       # notes/C02.md: tw_* scores on Datasets were wrong even without any NaN (fixed in /repo 19985d4; reported again if it returns)
+            ctx.fail(DS_BATCH, "property", e.name, "dataset-variable-differs-from-variable-alone", c,
+                     observed={"var": v, "dataset": core.canon(R.to_labelled(got[v]))},
+                     expected={"alone": core.canon(R.to_labelled(out["value"]))}, tags=t, theorem="nanmean_mask_eq_delete")
+            continue
+        # ... and = the variable alone with ITS OWN missing cases deleted (aggregating requests only)
+        pos = c["positions"][v]
+        if "preserve_dims" in req or not pos or len(pos) == n:
+            continue
+        darr, dw = delete(arrs[v], w, pos, n)
+        dele, ex2 = c01.safe_call(e, ds_case_of(e, darr, dw), req, arrays=darr, weights=dw)
+        if ex2 is not None:
+            continue
+        if not same_out({v: got[v]}, {v: dele["value"]}):
+            t = dict(tags, var=v, own_missing=pos)
+            ctx.fail(DS_BATCH, "property", e.name, "dataset-variable-differs-from-deleted", c,
+                     observed={"var": v, "dataset": core.canon(R.to_labelled(got[v]))},
+                     expected={"deleted": core.canon(R.to_labelled(dele["value"])), "deleted_cases": pos}, tags=t,
+                     theorem="nanmean_mask_eq_delete")
+    return len(ctx.failures) > nfail
+
+
+def dataset_per_variable(ctx, ncases):
+    rng = ctx.rng
+    for name in DS_FUNCS:
+        e = R.BY_NAME.get(name)
+        if e is None:
+            continue
+        for _ in range(ncases):
+            c = gen_ds(rng, e)
+            pos = c["positions"]
+            ctx.case(DS_BATCH, c, nontrivial=any(len(p) < c["n"] for p in pos.values()))
+            ctx.tag("ds:nvars=%d" % len(pos))
+            ctx.tag("ds:request=" + (",".join(sorted(c["request"])) or "default"))
+            ctx.tag("ds:weights" if c["weights"] is not None else "ds:no-weights")
+            sets = [set(p) for p in pos.values()]
+            ctx.tag("ds:missing-differs-between-variables" if any(a != b for a in sets for b in sets) else "ds:same-missing")
+            ds_eval(ctx, c)
+
+
 def replay_concrete(payload):
     """re-evaluate exactly the recorded input of the two batches above"""
     c = dict(payload["case"])
@@ -652,9 +822,12 @@ def oracle(ctx, boost):
     pointwise_nan(ctx, ctx.n(2, 12) * k)
     ensemble_missing_case(ctx, ctx.n(6, 40) * k)
     risk_matrix_zero_weight(ctx, ctx.n(30, 200) * k)
+    dataset_per_variable(ctx, ctx.n(3, 15) * k)
 
 
 def replay(ctx, payload):
+    if payload.get("batch") == DS_BATCH:
+        return ds_eval(core.Ctx("C02", "quick", payload.get("seed", 0)), payload["case"])
     if payload.get("batch") in ("ensemble-missing-case", "risk-matrix-zero-weight"):
         return replay_concrete(payload)
     c = core.Ctx("C02", "quick", payload.get("seed", 0))
